@@ -503,7 +503,9 @@ func (ex *Exec) obligeLabel(kind, pc, goal string, pos token.Pos, label string) 
 	ob := &Obligation{Name: name, Kind: kind, Func: r.key, Pos: ex.position(pos), Detail: label, Prefix: len(ex.em.lines), PC: pc, Goal: goal}
 	ex.applyKnownFindings(ob)
 	ex.em.Obls = append(ex.em.Obls, ob)
-	ex.em.assume(pc, goal)
+	if ob.KnownFinding == "" {
+		ex.em.assume(pc, goal)
+	}
 }
 
 // frame obligations -----------------------------------------------------------
